@@ -26,7 +26,7 @@ _KEYS = {}
 
 def _keys(nk, seed):
     if (nk, seed) not in _KEYS:
-        _KEYS[(nk, seed)] = gamma.Keys(nk, seed)
+        _KEYS[(nk, seed)] = gamma.Keys(nk, seed, related=True)      # keys 1, 2 (and 3, 4) coincide in 32 bits of their public value
     return _KEYS[(nk, seed)]
 
 
